@@ -7,7 +7,7 @@ RULE = ('cases = multi-user histories incl. interrupted snapshots (orphaned chun
         'snapshots is gone and the named snapshot objects are gone; after a completed clean: the caller family\'s chunk objects == referenced chunks; '
         'chunks/snapshots of other families, config and foreign objects untouched; lifted state compared with Model/Repo.exec after every command; '
         'non-trivial = >= 3 commands of >= 2 kinds')
-WEIGHTS = {'snapshot': 4, 'repeat': 1, 'pair': 1, 'delete': 4, 'delete_foreign': 1, 'clean': 3, 'orphans': 2, 'faulty_clean': 1, 'interrupted_delete': 1}
+WEIGHTS = {'snapshot': 4, 'repeat': 1, 'pair': 1, 'delete': 4, 'delete_foreign': 1, 'clean': 3, 'orphans': 2, 'faulty_clean': 1, 'interrupted_delete': 1, 'observe': 1}
 CHECKS = {'exact', 'frame'}
 MINE = ('gc_incomplete', 'gc_overreach', 'config_touched', 'exception', 'unknown_object', 'refused_delete_mutated')
 
